@@ -59,6 +59,7 @@ LoadMatches(e, m, r) == /\ e = -1 \/ (e = 0 /\ r.ok) \/ (e = 1 /\ ~r.ok)
 \* them for the name and find no complete block behind it: error or empty map, by the bytes
 LoadObserved(e, m, d) == \/ LoadMatches(e, m, Load(d))
                          \/ d.ex /\ d.hd = 1 /\ e \in {0, -1} /\ m = Empty
+                         \/ TornRun(d) /\ LoadMatches(e, m, TornRunPrefix(d))
 
 EntryOf(e) == [op |-> e.op, k |-> e.k, v |-> e.v, kc |-> e.kc, rep |-> e.rep, ak |-> e.ak, av |-> e.av]
 
